@@ -291,12 +291,12 @@ func splitNode[T any](n *node[T], pos int) (*node[T], error) {
 	if p == nil {
 		panic("节点必须要有一个有效的父节点，才能进行拆分")
 	}
-	p.children = removeNode(p.children, n) // 先从父节点中删除老的 n
 
-	segs, err := n.segment.Split(n.root.interceptors, pos)
+	segs, err := n.segment.Split(n.root.interceptors, pos) // 出错时不能改变现有的节点
 	if err != nil {
 		return nil, err
 	}
+	p.children = removeNode(p.children, n) // 先从父节点中删除老的 n
 	ret := p.newChild(segs[0])
 
 	// n 本身作为后一段继续使用，而不是新建一个节点。
